@@ -20,6 +20,7 @@ type Access struct {
 	ValDeps []string
 	At      ssa.Instruction
 	Val     ai.Value // the value written (writes only)
+	Cond    bool     // the access happens under a data-dependent branch of its row entry
 }
 
 func (a Access) String() string {
@@ -279,6 +280,13 @@ func (c *Ctx) fetchRow(m *Machine, cpuPtr *ai.Ptr, k int, prefixed bool) *Row {
 	it.Hooks = ai.Hooks{Undecided: func(_ *ai.State, at ssa.Instruction, what string) { undec = append(undec, what) }}
 	defer func() { it.Hooks = ai.Hooks{} }()
 	pre := it.StateOn(c.W.Generic)
+	if stt0, ok := m.CPU.T.Underlying().(*types.Struct); ok {
+		for i := 0; i < stt0.NumFields(); i++ {
+			if f := stt0.Field(i); isEarlyType(f.Type()) {
+				st.SetCell(m.CPU, "."+f.Name(), &ai.Top{T: f.Type()})
+			}
+		}
+	}
 	ret, post := it.CallFunction(st, m.NextFn, []ai.Value{cpuPtr}, nil)
 	if post == nil {
 		row.Undecided = append(row.Undecided, "fetch routine does not return")
@@ -301,9 +309,9 @@ func (c *Ctx) fetchRow(m *Machine, cpuPtr *ai.Ptr, k int, prefixed bool) *Row {
 				row.Slice = s
 			}
 		case isEarlyType(f.Type()):
-			if !sameVal(v, old) {
-				row.Early = v
-			}
+			// the start state holds a marker (an unknown predicate): a fetch that does not
+			// store the cell leaves the previous instruction's predicate in force
+			row.Early = v
 		case f.Name() == "pc":
 			if iv, ok := v.(*ai.Int); ok && iv.HasBase {
 				if s, ok2 := it.CellSym(m.CPU, ".pc"); ok2 && iv.Base == s {
@@ -475,7 +483,9 @@ func (c *Ctx) classifyAddr(m *Machine, v ai.Value, imm map[ai.Sym]int) (string, 
 	// nn+1: depends on exactly the two operand bytes, bit 0 is the negated bit 0 of the first
 	if len(a.D) == 2 && imm[a.D[0]]+imm[a.D[1]] == 3 {
 		b0 := a.Bits[0]
-		if b0.K == ai.BSrc && b0.Neg && b0.J == 0 && imm[b0.S] == 1 {
+		// and the increment carries into the high byte: if bits 8-15 were an exact copy of
+		// the second operand byte the address would stay in the page of nn (8-bit increment)
+		if b0.K == ai.BSrc && b0.Neg && b0.J == 0 && imm[b0.S] == 1 && !okHi {
 			return "NN+1", 0
 		}
 	}
@@ -495,6 +505,7 @@ func (c *Ctx) summariseRow(m *Machine, row *Row) {
 	st := it.StateOn(c.W.Generic)
 	pre := it.StateOn(c.W.Generic)
 	cycle := 0
+	baseDeps := 0
 	pcOff := int64(0)
 	immSyms := map[ai.Sym]int{}
 	row.ImmCycles = map[int]bool{}
@@ -515,14 +526,14 @@ func (c *Ctx) summariseRow(m *Machine, row *Row) {
 					immSyms[sym] = len(immSyms) + 1
 					row.ImmCycles[cycle] = true
 				}
-				row.Acc = append(row.Acc, Access{Cycle: cycle, Kind: 'R', Class: cls, Off: off, At: at, ValDeps: nil})
+				row.Acc = append(row.Acc, Access{Cycle: cycle, Kind: 'R', Class: cls, Off: off, At: at, ValDeps: nil, Cond: len(s.PathDeps) > baseDeps})
 				return ai.NewSymInt(8, false, sym), s
 			}
 			var vd []string
 			if len(args) >= 3 {
 				vd = m.depNames(it, ai.DepsOf(args[2]))
 			}
-			row.Acc = append(row.Acc, Access{Cycle: cycle, Kind: 'W', Class: cls, Off: off, ValDeps: vd, At: at, Val: args[2]})
+			row.Acc = append(row.Acc, Access{Cycle: cycle, Kind: 'W', Class: cls, Off: off, ValDeps: vd, At: at, Val: args[2], Cond: len(s.PathDeps) > baseDeps})
 			return nil, s
 		}
 		defer delete(it.Intercepts, fnc)
@@ -562,6 +573,7 @@ func (c *Ctx) summariseRow(m *Machine, row *Row) {
 		}
 		row.SubNames = append(row.SubNames, fnName(f.Fn))
 		nAcc := len(row.Acc)
+		baseDeps = len(st.PathDeps)
 		_, post := it.CallFunction(st, f.Fn, nil, f.Bind)
 		if post == nil {
 			// every path ends the process (undefined opcode) or crashes
